@@ -180,3 +180,116 @@ func algTableRule(w *World, r *Report, rule string) {
 		r.Check(why == "", rule, construct, w.Pos(g.Pos()), fmt.Sprintf("name, x509.%s, key family and digest agree", std.name), "a record stored under this algorithm name is verified under another algorithm: "+why)
 	}
 }
+
+// C15.alglookup: the function that maps the stored algorithm name to the x509 algorithm returns, whenever it does not
+// fail, the algorithm of the table row whose name EQUALS the stored name: every value it can return beside a nil error
+// is the algorithm field of the element whose name field was compared for equality with the parameter on an edge that
+// dominates the return (or the comma-ok result of a map lookup keyed by the parameter, or a constant under an equality
+// test of the parameter with a constant name). A value read after the loop through a remembered pointer, a
+// case-insensitive or prefix match, or a default algorithm verifies a record under another algorithm than the stored
+// one.
+func algLookupRule(w *World, r *Report, rule string) {
+	n := 0
+	for _, fn := range w.ProdFuncs() {
+		if moduleOfFunc(fn) != "cfesignature" || fn.Signature.Results().Len() != 2 || fn.Blocks == nil {
+			continue
+		}
+		res := fn.Signature.Results()
+		if !strings.HasSuffix(typeString(res.At(0).Type()), "x509.SignatureAlgorithm") || !isErrorType(res.At(1).Type()) {
+			continue
+		}
+		var nameP *ssa.Parameter
+		for _, p := range fn.Params {
+			if typeString(p.Type()) == "string" {
+				nameP = p
+			}
+		}
+		if nameP == nil {
+			continue
+		}
+		n++
+		isName := func(v ssa.Value) bool {
+			return v == ssa.Value(nameP) || normLocal(v) == ssa.Value(nameP)
+		}
+		// fieldOfElem: v reads field f of element base B
+		fieldOfElem := func(v ssa.Value) (ssa.Value, int, bool) {
+			switch x := v.(type) {
+			case *ssa.UnOp:
+				if fa, ok := x.X.(*ssa.FieldAddr); ok && x.Op.String() == "*" {
+					return fa.X, fa.Field, true
+				}
+			case *ssa.Field:
+				return x.X, x.Field, true
+			}
+			return nil, 0, false
+		}
+		all := ReachUnder(fn, func(ssa.Value) (bool, bool) { return false, false })
+		k := 0
+		for _, ret := range Returns(fn) {
+			rv := retVals(ret)
+			if len(rv) != 2 || nonNilAt(rv[1], ret.Block(), 0) {
+				continue
+			}
+			for _, alt := range all.LiveValues(rv[0]) {
+				k++
+				ok, why := false, "the value is not read from the row that was matched"
+				switch x := alt.(type) {
+				case *ssa.Const:
+					// a constant algorithm under name == "constant"
+					edges := EdgesWhere(fn, func(base ssa.Value) (bool, bool) {
+						bo, isBo := base.(*ssa.BinOp)
+						if !isBo || bo.Op.String() != "==" {
+							return false, false
+						}
+						_, cx := bo.X.(*ssa.Const)
+						_, cy := bo.Y.(*ssa.Const)
+						if (isName(bo.X) && cy) || (isName(bo.Y) && cx) {
+							return true, true
+						}
+						return false, false
+					})
+					ok = len(edges) > 0 && MustPass(fn, edges, ret.Block())
+					why = "a constant algorithm is returned without an equality test of the stored name against a constant name"
+				case *ssa.Extract:
+					if lk, isLk := x.Tuple.(*ssa.Lookup); isLk && lk.CommaOk && x.Index == 0 && isName(lk.Index) {
+						var okv ssa.Value
+						for _, ref := range *lk.Referrers() {
+							if ex, isEx := ref.(*ssa.Extract); isEx && ex.Index == 1 {
+								okv = ex
+							}
+						}
+						ok = okv != nil && MustPass(fn, boolValueEdges(fn, okv, true), ret.Block())
+						why = "the map lookup's result is returned without its ok flag having been tested"
+					}
+				case *ssa.Lookup:
+					why = "a map lookup without the comma-ok form returns the zero algorithm for an unknown name"
+				default:
+					base, _, isF := fieldOfElem(alt)
+					if isF {
+						edges := EdgesWhere(fn, func(b ssa.Value) (bool, bool) {
+							bo, isBo := b.(*ssa.BinOp)
+							if !isBo || bo.Op.String() != "==" {
+								return false, false
+							}
+							for _, pair := range [][2]ssa.Value{{bo.X, bo.Y}, {bo.Y, bo.X}} {
+								if !isName(pair[1]) {
+									continue
+								}
+								if b2, _, isF2 := fieldOfElem(pair[0]); isF2 && b2 == base && typeString(pair[0].Type()) == "string" {
+									return true, true
+								}
+							}
+							return false, false
+						})
+						ok = len(edges) > 0 && MustPass(fn, edges, ret.Block())
+						why = "the algorithm returned is not dominated by an equality test of the same row's name with the stored name"
+					}
+				}
+				r.Check(ok, rule, fmt.Sprintf("%s: algorithm returned beside a nil error #%d", funcName(fn), k), w.Pos(ret.Pos()), "the algorithm of the row whose name equals the stored name", "a stored record can be verified under another algorithm than the one stored with it: "+why)
+			}
+		}
+	}
+	if n == 0 {
+		r.Unk(rule, "name -> x509 algorithm lookup of x/cfesignature", "", "no function of the module returns (x509.SignatureAlgorithm, error) for a string")
+	}
+}
